@@ -123,3 +123,12 @@ Theorem C12_src_is_in_clip : forall g cs ce m,
   Source.is_in_clip g cs ce m = is_in_clip g cs ce m.
 Proof. exact EquivOps.src_is_in_clip. Qed.
 Print Assumptions C12_src_is_in_clip.
+
+(* the bounds these functions read (py_compute_bounds in the generated text) are what compute_bounds and
+   geometry_to_shapely, as read from the source, compute for every valid geometry *)
+From SE Require Gen.SrcConversion.
+From SE Require Import Gen.Prelude.
+Theorem C12_src_compute_bounds : forall g,
+  validb g = true -> Source.compute_bounds_py g = py_compute_bounds g.
+Proof. exact SrcConversion.src_compute_bounds_valid. Qed.
+Print Assumptions C12_src_compute_bounds.
